@@ -74,4 +74,15 @@ PROPS = {
         ],
         "assumptions": ["the expression grammar feeds the repair functions exactly the right-recursive chain structure of Expr/Tree.v (checked by correspondence on every generated expression)"],
     },
+    "C16": {
+        "coq_targets": ["theories/RT/PrinterProofs.vo", "theories/RT/UsingProofs.vo"],
+        "harness": ["c16"],
+        "disagreement_is_violation": True,
+        "axioms": [],
+        "trusted_base": COMMON_TB + [
+            "modelled, not verified: WritePrinter (write_printer.rs), PrintState incl. PRINT USING scanners (print.rs), the PRINT instruction sequence (instruction_generator/print.rs) and print_comma/print_value_from_a/print_end (interpreter/main.rs); the decimal text of a number is taken from Rust Display (only the sign/blank framing is modelled); PRINT USING of floating point values is outside the model",
+            "files are observed by reading them back from the scratch directory of the run (OS file semantics assumed)",
+        ],
+        "assumptions": ["the text of a number contains no CR/LF (Rust Display)"],
+    },
 }
